@@ -37,6 +37,11 @@ def _char_origin_problem(fn, operand):
 
 
 def run(ctx):
+    _run_main(ctx)
+    rule_r4(ctx)
+
+
+def _run_main(ctx):
     fx, cg = ctx.fx, ctx.cg
 
     # ------------------------------------------------------------------ R1
@@ -331,3 +336,28 @@ def _backward(fn, operand, limit=60):
                     if a[0] in ('c', 'm'):
                         st.append(a[1][0])
     return seen
+
+
+
+def rule_r4(ctx):
+    """Text synchronisation notifications are applied in arrival order and before the next message is looked at: the
+    server's didOpen / didChange / didClose entry points run their handler inline (awaited in the notification's own
+    future), never in a spawned task."""
+    fx = ctx.fx
+    r4 = ctx.rule('C14.R4', 'didOpen / didChange / didClose apply the edit inline: the entry point calls the sync handler directly and spawns nothing', floor=3, floor_what='sync entry points')
+    for name in ('did_open', 'did_change', 'did_close'):
+        ids = [k for k in fx.fns if re.search(r'as tower_lsp::LanguageServer>::%s::\{closure#0\}$' % name, k)]
+        if not ids:
+            r4.bad('anchor-missing|%s' % name, 'LanguageServer::%s entry point not found' % name)
+            continue
+        fn = F(fx.fns[ids[0]])
+        r4.saw()
+        direct = fn.calls(lambda n: re.search(r'handlers::(sync::)?%s$' % name, n) is not None)
+        spawns = fn.calls(lambda n: re.search(r'tokio::(task::)?(spawn|spawn_blocking|spawn_local)\b|::spawn$|::spawn_blocking$|JoinSet<.*>::spawn', n) is not None)
+        key = 'inline|%s' % name
+        if direct and not spawns:
+            r4.ok(key, loc=fn.loc(direct[0][0]))
+        elif spawns:
+            r4.bad(key, 'the %s entry point hands its work to a spawned task: the edit is no longer applied before the next message is dispatched, so a request right behind it is answered for the old text and two changes can be applied out of order (the stored text then diverges from the editor for good)' % name, loc=fn.loc(spawns[0][0]))
+        else:
+            r4.bad(key, 'the %s entry point no longer calls the sync handler directly (shape not recognised)' % name, loc=fn.loc(0))
